@@ -156,7 +156,7 @@ def _run_task(args):
 
     fn, task = args
     t0 = time.time()
-    limit = int(task.get("hard_timeout_s") or os.environ.get("VERIF_UNIT_TIMEOUT", "0") or (300 if os.environ.get("VERIF_TIER_EFFECTIVE", "quick") == "quick" else 2400))
+    limit = unit_limit(task)
     try:
         signal.signal(signal.SIGALRM, _on_alarm)
         signal.setitimer(signal.ITIMER_REAL, limit)
@@ -182,7 +182,36 @@ def _run_task(args):
     return r
 
 
+def _worker_main(conn, fn, init, initargs):
+    """Worker loop: receive task, send result.  Killed by the parent when a task overruns."""
+    try:
+        if init:
+            init(*initargs)
+    except BaseException as e:  # noqa: BLE001
+        conn.send(("init-error", f"{type(e).__name__}: {e}"))
+        return
+    conn.send(("ready", None))
+    while True:
+        try:
+            task = conn.recv()
+        except EOFError:
+            return
+        if task is None:
+            return
+        conn.send(("done", _run_task((fn, task))))
+
+
+def unit_limit(task: dict) -> int:
+    env = int(os.environ.get("VERIF_UNIT_TIMEOUT", "0") or 0)
+    return int(task.get("hard_timeout_s") or env or (300 if os.environ.get("VERIF_TIER_EFFECTIVE", "quick") == "quick" else 2400))
+
+
 def run_units(fn: Callable[[dict], dict] | None, tasks: list[dict], *, procs: int | None = None, init=None, initargs=(), progress: bool = True):
+    """Run tasks on a pool of forked workers with a parent-side watchdog.
+
+    A unit that overruns its hard limit (SIGALRM inside the worker first; the parent kills the
+    worker 30 s later if the code is stuck inside a C call) is reported inconclusive, never held.
+    """
     procs = procs or int(os.environ.get("VERIF_PROCS", "0")) or min(16, os.cpu_count() or 4)
     results = []
     t0 = time.time()
@@ -193,13 +222,80 @@ def run_units(fn: Callable[[dict], dict] | None, tasks: list[dict], *, procs: in
             results.append(_run_task((fn, t)))
         return results
     ctx = mp.get_context("fork")
-    with ctx.Pool(procs, initializer=init, initargs=initargs, maxtasksperchild=200) as pool:
-        n = 0
-        for r in pool.imap_unordered(_run_task, [(fn, t) for t in tasks], chunksize=1):
-            results.append(r)
-            n += 1
-            if progress and n % 200 == 0:
-                print(f"  .. {n}/{len(tasks)} units, {time.time() - t0:.0f}s", flush=True)
+    pending = list(reversed(tasks))
+    workers: list[dict] = []
+
+    def spawn():
+        parent, child = ctx.Pipe()
+        p = ctx.Process(target=_worker_main, args=(child, fn, init, initargs), daemon=True)
+        p.start()
+        child.close()
+        return {"proc": p, "conn": parent, "task": None, "since": time.time(), "ready": False, "done": 0}
+
+    for _ in range(min(procs, len(tasks))):
+        workers.append(spawn())
+    n = 0
+    import multiprocessing.connection as mpc
+
+    while pending or any(w["task"] is not None for w in workers):
+        conns = [w["conn"] for w in workers]
+        for c in mpc.wait(conns, timeout=1.0):
+            w = next(x for x in workers if x["conn"] is c)
+            try:
+                kind, payload = c.recv()
+            except (EOFError, OSError):
+                kind, payload = "died", None
+            if kind == "ready":
+                w["ready"] = True
+            elif kind == "done":
+                results.append(payload)
+                w["task"] = None
+                w["done"] += 1
+                n += 1
+                if progress and n % 200 == 0:
+                    print(f"  .. {n}/{len(tasks)} units, {time.time() - t0:.0f}s", flush=True)
+            elif kind in ("died", "init-error"):
+                if w["task"] is not None:
+                    r = new_result(str(w["task"].get("unit")))
+                    r["harness_errors"].append(f"worker died while running unit {w['task'].get('unit')} ({kind} {payload})")
+                    results.append(r)
+                    n += 1
+                elif kind == "init-error":
+                    raise HarnessError(f"worker initialisation failed: {payload}")
+                w["proc"].kill()
+                workers[workers.index(w)] = spawn()
+                continue
+            if w["ready"] and w["task"] is None:
+                if w["done"] >= 200:  # recycle long-lived workers (memory)
+                    try:
+                        w["conn"].send(None)
+                    except OSError:
+                        pass
+                    workers[workers.index(w)] = spawn()
+                elif pending:
+                    w["task"] = pending.pop()
+                    w["since"] = time.time()
+                    w["conn"].send(w["task"])
+        now = time.time()
+        for idx, w in enumerate(workers):
+            if w["task"] is not None and now - w["since"] > unit_limit(w["task"]) + 30:
+                w["proc"].kill()
+                r = new_result(str(w["task"].get("unit")))
+                r["inconclusive"].append(("unit", f"killed by the watchdog after {int(now - w['since'])}s (possible non-termination inside a C call; not counted as held)"))
+                r["timed_out"] = True
+                r["wall_s"] = now - w["since"]
+                results.append(r)
+                n += 1
+                workers[idx] = spawn()
+    for w in workers:
+        try:
+            w["conn"].send(None)
+        except OSError:
+            pass
+    for w in workers:
+        w["proc"].join(timeout=2)
+        if w["proc"].is_alive():
+            w["proc"].kill()
     results.sort(key=lambda r: r["unit"])
     return results
 
